@@ -7,7 +7,7 @@ HOOK_COMMITS = ["9665c83 verif hooks: yield points in the sse delivery goroutine
 
 PROPS = {
     "C06": {
-        "claimed": False, "na_reason": "proofs in progress",
+        "claimed": True,
         "model_modules": ["TemplVerif.Model.Pos"],
         "proof_modules": ["TemplVerif.Proofs.Pos"],
         "thorough_shards": 12,
@@ -36,7 +36,7 @@ PROPS = {
         "assumptions": STD_ASSUME,
     },
     "C07": {
-        "claimed": False, "na_reason": "proofs in progress",
+        "claimed": True,
         "model_modules": ["TemplVerif.Model.Pos", "TemplVerif.Model.SourceMap"],
         "proof_modules": ["TemplVerif.Proofs.Pos"],
         "level_text": "Lean 4 theorems about the model of parser.SourceMap and generator.RangeWriter position tracking: after Add, every rune-start "
